@@ -5,7 +5,7 @@
    and which cache entries the oracle found invalid. *)
 From Coq Require Import List String Bool Arith ZArith.
 Import ListNotations.
-Require Import C12.MemoBase C12.gen.Memoize C12.MemoLaws C12.Model C12.Sym.
+Require Import C12.MemoBase C12.gen.Memoize C12.MemoLaws C12.Model C12.Sym C12.gen.SourceFlags.
 
 Definition K := sym_kern.
 Definition sheap := heap K.
@@ -45,7 +45,7 @@ Definition mat_of (h : sheap) (i : nat) : smat :=
    | 4 model: invalid, oracle: valid (soft: a known defect that was repaired)
    | 5 oracle rejects an entry the model holds valid | 6 model holds an entry invalid, oracle accepts (soft) *)
 Definition step_code (s : sstate) (e : event K) (x : expect) : nat * sstate :=
-  let (a, s') := step K s e in
+  let (a, s') := step K flags s e in
   let h' := snd s' in
   let raised := match a with AVal (Raise _) | AObj (Raise _) => true | _ => false end in
   let mvalid := match a, e with
@@ -101,7 +101,7 @@ Fixpoint trace (h : list (event K)) (s : sstate) : list (bool * bool * list (lis
   match h with
   | [] => []
   | e :: r =>
-      let (a, s') := step K s e in
+      let (a, s') := step K flags s e in
       let raised := match a with AVal (Raise _) | AObj (Raise _) => true | _ => false end in
       let mvalid := match a, e with
                     | AVal (Ok v), EQuery i q => sym_valid (aspect_of_query q) (mat_of (snd s') i) v
